@@ -56,6 +56,8 @@ func init() {
 		"	if err := d.validateResourcesExist(ctx, from, to); err != nil {", "	if err := d.validateResourcesExist(ctx, from); err != nil {", "C16.R3.create")
 	mut("C16", "cycle test looks at the descendants of the source", wdag,
 		"	descendants, err := d.retrieveDescendants(ctx, to)\n	if err != nil {\n		return err\n	}\n	if _, exists := descendants[from]; exists {", "	descendants, err := d.retrieveDescendants(ctx, from)\n	if err != nil {\n		return err\n	}\n	if _, exists := descendants[from]; exists {", "C16.R3.create")
+	mut("C16", "cycle test waved through for group targets", wdag,
+		"	if _, exists := descendants[from]; exists {\n		return graph.ErrCyclicDependency\n	}\n	return d.relationshipTable", "	if _, exists := descendants[from]; exists && to.Type != \"group\" {\n		return graph.ErrCyclicDependency\n	}\n	return d.relationshipTable", "C16.R3.create")
 	mut("C16", "one-to-many create ignores a detected cycle", wdag,
 		"		if _, exists := descendants[from]; exists {\n			return graph.ErrCyclicDependency\n		}\n	}\n	return d.relationshipTable.NewCreate().Entries(&rels).Exec(ctx, d.tx)", "		if _, exists := descendants[from]; exists {\n			continue\n		}\n	}\n	return d.relationshipTable.NewCreate().Entries(&rels).Exec(ctx, d.tx)", "C16.R3.create")
 	mut("C16", "retrieveDescendants stops at the first childless child", wdag,
@@ -243,4 +245,11 @@ func init() {
 		"	return w.otg.DeleteResource(ctx, OntologyID(key))\n}", "	return nil\n}", "C18.R3.resource")
 	mut("C18", "deleting policies leaves their ontology resources behind", "core/pkg/service/access/rbac/policy/writer.go",
 		"	return w.otg.DeleteManyResources(ctx, OntologyIDs(keys))\n}", "	return nil\n}", "C18.R3.resource")
+	// ---------------- E14 (error flow)
+	mut("C16", "DeleteResource goes on after a failed incoming-edge delete of typed ids", "core/pkg/distribution/ontology/writer_dag.go",
+		"func (d dagWriter) DeleteResource(ctx context.Context, id ID) error {\n	if err := d.deleteIncomingRelationships(ctx, id); err != nil {", "func (d dagWriter) DeleteResource(ctx context.Context, id ID) error {\n	if err := d.deleteIncomingRelationships(ctx, id); err != nil && id.IsType() {", "C16.ERR")
+	mut("C17", "Writer.set stores nothing yet reports success when encoding fails for keyed entries", "x/go/gorp/writer.go",
+		"	data, err := w.tx.Encode(ctx, entry)\n	if err != nil {", "	data, err := w.tx.Encode(ctx, entry)\n	if err != nil && len(w.indexes) == 0 {", "C17.ERR")
+	mut("C07", "an unresolvable leaseholder is skipped when other peers are already open", "core/pkg/distribution/framer/writer/peer.go",
+		"		target, err := s.cfg.HostResolver.Resolve(nodeKey)\n		if err != nil {", "		target, err := s.cfg.HostResolver.Resolve(nodeKey)\n		if err != nil && len(senders) == 0 {", "C07.ERR")
 }
